@@ -12,4 +12,5 @@ func init() {
 			Decode: Decode,
 		})
 	}
+	sim.Register(&sim.Engine{Prop: "C08", Gen: GenSched, Exec: ExecSched, Decode: Decode, Sched: true, Concretize: concretize})
 }
